@@ -394,12 +394,69 @@ pub fn wide_edges(_r: &dyn Runner, st: &St, with_ranges: bool, out: &mut Vec<Edg
     }
 }
 
+/// capacity calls from a big state: no-op and growing reserves, shrinks to / above / below every interesting target
+fn big_caps(st: &St, out: &mut Vec<Edge>) {
+    let (len, cap) = (st.len as usize, st.cap as usize);
+    let grow = (cap - len + 1).min(255) as u8;
+    for api in [Api::Erased, Api::Typed] {
+        for c in [CapCall::Reserve, CapCall::ReserveExact] { for n in [0u8, 1, grow] { out.push(Edge::Cap(api, c, n)); } }
+        out.push(Edge::Cap(api, CapCall::ShrinkToFit, 0));
+        for n in [0usize, len, len + 1, cap, 255] { out.push(Edge::Cap(api, CapCall::ShrinkTo, n.min(255) as u8)); }
+    }
+}
+
+/// reduced alphabets of the wide / big states (leaves of the exploration), per property
+pub fn big_edges(prop: Prop, r: &dyn Runner, st: &St, v: &mut Vec<Edge>) {
+    match prop {
+        Prop::C01 => wide_edges(r, st, false, v),
+        Prop::C02 => wide_edges(r, st, true, v),
+        Prop::C03 | Prop::C05 => {
+            wide_edges(r, st, true, v);
+            if r.cloneable() { v.push(Edge::CloneVec { then: 0 }); }
+            if prop == Prop::C05 { big_caps(st, v); }
+        }
+        Prop::C08 => {
+            if r.cloneable() {
+                for then in [0u8, 1, 4, crate::exec_clone::N_THEN + 4] { v.push(Edge::CloneVec { then }); }
+                for dst in [0u8, 4, 5, 6] { v.push(Edge::CloneFrom { dst, then: 0 }); }
+            }
+            v.push(Edge::TypeReports(1));
+            v.push(Edge::CloneEmpty { then: 1 });
+        }
+        Prop::C10 => big_caps(st, v),
+        Prop::C17 => { for variant in 0..crate::exec_views::N_RAW_VARIANTS { v.push(Edge::RawParts { variant, then: 0 }); } }
+        Prop::C18 => {
+            big_caps(st, v);
+            if r.cloneable() { v.push(Edge::CloneVec { then: 0 }); }
+            v.push(Edge::RawParts { variant: 0, then: 0 });
+            v.push(Edge::Insert(Api::Erased, 0, Src::W)); v.push(Edge::Remove(Api::Erased, 0, Sink::Drop)); v.push(Edge::Clear(Api::Erased));
+        }
+        _ => wide_edges(r, st, true, v),
+    }
+}
+
+/// huge-vector operations (`exec_huge`), from the empty unallocated state only
+fn huge(prop: Prop, r: &dyn Runner, st: &St, v: &mut Vec<Edge>) {
+    if st.len != 0 || st.cap != 0 || st.spare == Spare::Scrub || !r.resizable() || r.elem_size() == 0 { return; }
+    let ops: &[u8] = match prop {
+        Prop::C01 => &[0, 1, 2, 3, 4, 5],
+        Prop::C02 => &[6, 7, 8, 9, 10],
+        Prop::C05 => &[0, 2, 6, 8, 12],
+        Prop::C08 => &[11],
+        Prop::C10 | Prop::C18 => &[12, 13],
+        Prop::C14 => &[14, 15],
+        _ => &[],
+    };
+    for &op in ops { v.push(Edge::Huge { op }); }
+}
+
 pub fn edges_for(prop: Prop, tier: Tier, r: &dyn Runner, st: &St) -> Vec<Edge> {
     let mut v = Vec::new();
     if st.len as usize > bounds(prop, tier).lmax && r.fixed_cap().is_none() {
-        wide_edges(r, st, prop != Prop::C01, &mut v);
+        big_edges(prop, r, st, &mut v);
         return v;
     }
+    huge(prop, r, st, &mut v);
     match prop {
         Prop::C01 => { elementwise(r, tier, st, &mut v); histories(r, tier, st, &mut v); }
         Prop::C02 => { ranges(r, tier, st, true, &mut v); adaptors(r, tier, st, true, &mut v); v.push(Edge::Push(Api::Typed, Src::W)); v.push(Edge::Pop(Api::Typed, Sink::Downcast)); }
